@@ -45,6 +45,20 @@ def run (α : Type) [Scalar α] [Codec α] (op : String) (c : Ctx) : Option (Rd 
       let F ← rdFaces c
       let nv ← Rd.nat c
       pure s!"{outEdges (edges F)} i{numEdges F} i{numEdgesConvex nv F.length}"
+  | "st.edge_history" => some do
+      -- in: initial faces, ops (i0 = read the edges | i1 faces = sort_faces/merge_faces ending with these faces)
+      -- out: i<number of reads>, then the edge list returned by every read (state machine `EdgeCache`)
+      let F0 ← rdFaces c
+      let ops ← Rd.list c (do
+        let k ← Rd.nat c
+        if k == 0 then pure EdgeOp.read else do
+          let F ← rdFaces c
+          pure (EdgeOp.setFaces F))
+      let (_, outs) := ops.foldl (fun (acc : EdgeCache × List String) op =>
+          match op with
+          | .read => let r := acc.1.readEdges; (r.2, acc.2 ++ [outEdges r.1])
+          | .setFaces F => (acc.1.step (.setFaces F), acc.2)) (EdgeCache.init F0, [])
+      pure (" ".intercalate (s!"i{outs.length}" :: outs))
   | "st.edge_vectors" => some do
       -- in: verts, faces ; out: n, vectors (3 each), lengths
       let V : List (V3 α) ← rdVerts c
